@@ -75,6 +75,8 @@ class Analyzer:
         self.watch = None               # optional predicate on callee paths: argument values are recorded in Result.call_states
         self.closure_seeds = {}         # closure body id -> {arg local: (lo, hi)}
         self.mag = False                # C03: emit MAG obligations at loop-count / allocation-size / dimension sinks
+        self.mag_pos = frozenset()      # C03: the cursor coordinate terms reachable from the parameters (bounded on entry by C09)
+        self.mag_soft = frozenset()     # C03: terms whose entry invariant is not to be relied on for loop trip counts (see interproc.analyse)
         self.debug_head = None          # (block, callback(pred, old, new_in, joined)) for debugging a loop head
         self.restart_nested = not os.environ.get('VERIF_NO_RESTART')      # solve nested loops again once the enclosing fix-point is known (see analyze)
         self.narrow_passes = int(os.environ.get('VERIF_NARROW', '2'))          # descending iterations after the ascending fix-point (see analyze)
@@ -359,10 +361,17 @@ class Analyzer:
         steps = t[2]
         return len(steps) >= 2 and steps[-1] in ("width", "height") and steps[-2] == "size"
 
-    def mag_bounded(self, st, v, deep=True):
-        """is the value bounded by a constant <= 2^16 or by (a container length / a dimension field) + such a constant?"""
+    def mag_bounded(self, st, v, deep=True, soft=False):
+        """is the value bounded by a constant <= 2^16 or by (a container length / a dimension field) + such a constant?
+        The cursor coordinates as they were on entry (not written since) count as bounded - C09's guarantee - except, with
+        soft, inside a helper whose caller may have moved the cursor just before the call."""
         if v is None:
             return False
+        if self.mag_pos and v[0] == "n" and v[1] is not None and v[2] <= self.MAG_LIMIT:
+            n_ = st.norm(v)
+            for t_ in (v[1], n_[1] if n_[0] == "n" else None):
+                if t_ is not None and t_ in self.mag_pos and not (soft and t_ in self.mag_soft) and self.liftable_term(t_, st.dirty):
+                    return True
         if v[0] == "pending":
             v = v[1]
         if v[0] in ("sum", "diff", "rem", "quot"):
@@ -395,37 +404,115 @@ class Analyzer:
                     return True
         return False
 
-    def mag_sink(self, st, bi, t, v, what, desc=None, tainted=None):
-        """obligation: the value driving a loop count / allocation / dimension is magnitude-bounded"""
+    def mag_lo_bounded(self, st, v, soft=False):
+        """is the value bounded below by -2^16 (or by a non-negative dimension / length minus such a constant)?"""
+        if v is None:
+            return False
+        if soft and self.mag_soft and v[0] == "n" and v[1] is not None:
+            n_ = st.norm(v)
+            if v[1] in self.mag_soft or (n_[0] == "n" and n_[1] in self.mag_soft):
+                return False
+        if v[0] == "pending":
+            v = v[1]
+        if v[0] in ("sum", "diff", "rem", "quot"):
+            v = v[1]
+        if v[0] == "nw":
+            v = self.reduce_nw(st, v)
+        if v[0] == "b":
+            return True
+        if v[0] not in ("n", "iv"):
+            return False
+        i = st.val_iv(v)
+        if i[0] is not None and i[0] >= -self.MAG_LIMIT:
+            return True
+        if v[0] == "n" and v[1] is not None:
+            v = st.norm(v)
+            if v[0] != "n" or v[1] is None:
+                i = st.val_iv(v)
+                return i[0] is not None and i[0] >= -self.MAG_LIMIT
+            if v[1][0] == "len" and v[2] >= -self.MAG_LIMIT:
+                return True
+            for (x, y), d in st.rel.items():
+                # x - v <= d with x >= 0  ==>  v >= -d
+                if y == v[1] and (x[0] == "len" or (st.iv.get(x, FULL)[0] is not None and st.iv.get(x, FULL)[0] >= 0)) and d - v[2] <= self.MAG_LIMIT:
+                    return True
+        return False
+
+    def mag_parts(self, st, v, lo=False, depth=3, soft=False):
+        """[(value, lo)]: the leaves that must each be bounded (above, or below when lo) for v to be; [] when v is.
+        A place that the state remembers as a difference / sum of two values is resolved into its operands."""
+        if (self.mag_lo_bounded(st, v, soft) if lo else self.mag_bounded(st, v, soft=soft)):
+            return []
+        w = v
+        if w is not None and w[0] == "pending":
+            w = w[1]
+        if w is not None and w[0] in ("sum", "diff") and depth > 0:
+            a, b = w[2], w[3]
+            if w[0] == "sum":
+                return self.mag_parts(st, a, lo, depth - 1, soft) + self.mag_parts(st, b, lo, depth - 1, soft)
+            return self.mag_parts(st, a, lo, depth - 1, soft) + self.mag_parts(st, b, not lo, depth - 1, soft)
+        if w is not None and w[0] == "n" and w[1] is not None and depth > 0 and st.lin:
+            n = st.norm(w)
+            if n[0] == "n" and n[1] is not None and n[1][0] == "v":
+                ab = st.lin.get((n[1][1], n[1][2]))
+                if ab is not None and len(ab) == 4 and ab[3] != "any" and (ab[3] == "lo") != lo:
+                    ab = None           # remembered for one side only
+                if ab is not None:
+                    a, b = ab[0], ab[1]
+                    if len(ab) >= 3 and ab[2] == "+":
+                        return self.mag_parts(st, a, lo, depth - 1, soft) + self.mag_parts(st, b, lo, depth - 1, soft)
+                    return self.mag_parts(st, a, lo, depth - 1, soft) + self.mag_parts(st, b, not lo, depth - 1, soft)
+        return [(v, lo)]
+
+    def mag_cands(self, st, v, lo):
+        """clean parameter terms whose bound (above / below) bounds v"""
+        w = v
+        if w is None:
+            return []
+        if w[0] == "pending":
+            w = w[1]
+        if w[0] in ("sum", "diff", "rem", "quot"):
+            w = w[1]
+        if w[0] == "nw":
+            w = ("n", w[1], w[2] + w[3])
+        cands = []
+        if w[0] == "n" and w[1] is not None:
+            w = st.norm(w)
+            if w[0] == "n" and w[1] is not None and self.term_inherent_taint(w[1]):
+                return []          # the number is itself a magnitude source (a decoded parameter): no caller can bound it
+            if w[0] == "n" and w[1] is not None:
+                if self.liftable_term(w[1], st.dirty):
+                    cands.append(w)
+                elif not lo:
+                    # v <= P + d for clean parameter terms P: bounding any of them bounds v
+                    for (x, y), d in st.rel.items():
+                        if x == w[1] and self.liftable_term(y, st.dirty) and isinstance(y[1], int) and 1 <= y[1] <= self.b.argc \
+                                and d + w[2] <= self.MAG_LIMIT:
+                            cands.append(("n", y, d + w[2]))
+                else:
+                    for (x, y), d in st.rel.items():
+                        if y == w[1] and self.liftable_term(x, st.dirty) and isinstance(x[1], int) and 1 <= x[1] <= self.b.argc \
+                                and d - w[2] <= self.MAG_LIMIT:
+                            cands.append(("n", x, -d + w[2]))
+        return cands
+
+    def mag_sink(self, st, bi, t, v, what, desc=None, tainted=None, lo=False, soft=False):
+        """obligation: the value driving a loop count / allocation / dimension is magnitude-bounded (from above; with lo: from
+        below).  A value the state knows as a difference or sum is split into its operands: one obligation per leaf."""
         if not self.mag or not self.collect:
             return
-        ok = self.mag_bounded(st, v)
-        lift = None
-        if not ok and v is not None:
-            w = v
-            if w[0] == "pending":
-                w = w[1]
-            if w[0] in ("sum", "diff", "rem", "quot"):
-                w = w[1]
-            if w[0] == "nw":
-                w = ("n", w[1], w[2] + w[3])
-            cands = []
-            if w[0] == "n" and w[1] is not None:
-                w = st.norm(w)
-                if w[0] == "n" and w[1] is not None:
-                    if self.liftable_term(w[1], st.dirty):
-                        cands.append(w)
-                    else:
-                        # v <= P + d for clean parameter terms P: bounding any of them bounds v
-                        for (x, y), d in st.rel.items():
-                            if x == w[1] and self.liftable_term(y, st.dirty) and isinstance(y[1], int) and 1 <= y[1] <= self.b.argc \
-                                    and d + w[2] <= self.MAG_LIMIT:
-                                cands.append(("n", y, d + w[2]))
-            if cands:
-                lift = ("mag", cands)
-        self.oblige(bi, "MAG", ok, "B" if ok else None, desc or self.describe(t), t, what, lift)
-        tv = tainted if tainted is not None else self.mag_tainted(st, v)
-        self.res.obls[-1].raw = ("mag", v, (not ok) and bool(tv))
+        leaves = self.mag_parts(st, v, lo, soft=soft)
+        if not leaves:
+            self.oblige(bi, "MAG", True, "B", desc or self.describe(t), t, what, None)
+            self.res.obls[-1].raw = ("maglo" if lo else "mag", v, False)
+            return
+        for (lv, llo) in leaves:
+            cands = self.mag_cands(st, lv, llo)
+            kind = "maglo" if llo else "mag"
+            lift = (kind, cands) if cands else None
+            self.oblige(bi, "MAG", False, None, desc or self.describe(t), t, what, lift)
+            tv = self.mag_tainted(st, lv) or (tainted if (tainted is not None and len(leaves) == 1) else False)
+            self.res.obls[-1].raw = (kind, lv, bool(tv))
 
     def const_table_range(self, name):
         """(min, max) over a flat constant table of integers, or None"""
@@ -1218,6 +1305,9 @@ class Analyzer:
         self.cur_line = s.get("line")
         if k == "assign":
             rv = s["rv"]
+            snap = None
+            if self.mag and st.lin and rv["k"] == "use" and ("move" in rv["a"] or "copy" in rv["a"]):
+                snap = self._lin_snapshot(st, rv["a"].get("move") or rv["a"].get("copy"), s["p"])
             v, vt = self.rvalue(st, rv, s["p"])
             if v is None:
                 if self.mag and self.rv_tainted(st, rv, None):
@@ -1227,6 +1317,8 @@ class Analyzer:
                 self.check_inv_store(st, s, v, rv)
             tsrc = self.mag and self.rv_tainted(st, rv, v)
             self.assign_typed(st, s["p"], v, rv)
+            if snap is not None:
+                st.lin[snap[0]] = snap[1]
             if tsrc:
                 self.taint_place(st, s["p"])
         elif k == "setdiscr":
@@ -1316,8 +1408,36 @@ class Analyzer:
                             self.assign(st, pj, ("n", ("v", q[0], q[1]), 0))
                             return
                         break
+            pre = None
+            if self.mag and v[0] in ("sum", "diff") and v[2][0] == "n" and v[3][0] == "n":
+                # `y += n` / `y -= n`: the old y is replaced by the constant 0 when it is bounded on the side that matters, so that
+                # the magnitude analysis can still see  y = (bounded) +/- n  afterwards
+                from .absdom import under as _under0, term_place as _tp0
+                c0 = self.canon(st, pj)
+                if c0 is not None and self.is_num(c0[2]):
+                    d0 = (c0[0], c0[1])
+                    a0, b0 = v[2], v[3]
+                    sa = a0[1] is not None and _under0(_tp0(a0[1]), d0)
+                    sb = b0[1] is not None and _under0(_tp0(b0[1]), d0)
+                    if v[0] == "sum" and sb and not sa:
+                        a0, b0, sa, sb = b0, a0, True, False
+                    if sa and not sb:
+                        if v[0] == "sum" and self.mag_bounded(st, a0):
+                            pre = (("n", None, 0), b0, "+", "hi")
+                        elif v[0] == "diff" and self.mag_lo_bounded(st, a0):
+                            pre = (("n", None, 0), b0, "satsub", "lo")
             self.assign(st, pj, v[1])
             c = self.canon(st, pj)
+            if c is not None and pre is not None:
+                st.lin[(c[0], c[1])] = pre
+            if c is not None:
+                # an operand that lives in the destination itself now denotes the new value: nothing to remember
+                from .absdom import under as _under, term_place as _tp
+                selfref = any(x[0] == "n" and x[1] is not None and _under(_tp(x[1]), (c[0], c[1])) for x in v[2:4] if isinstance(x, tuple))
+                if selfref:
+                    vn_key = None
+            else:
+                selfref = False
             if c is not None and vn_key is not None and self.is_num(c[2]):
                 st.lin[(c[0], c[1])] = vn_key
             if c is not None and self.is_num(c[2]):
@@ -1334,7 +1454,7 @@ class Analyzer:
                             if iy[0] is not None:
                                 st.add_le(x, me, -iy[0])
                 elif v[0] == "diff":
-                    if a[0] == "n" and b[0] == "n" and (a[1] is not None or b[1] is not None):
+                    if a[0] == "n" and b[0] == "n" and (a[1] is not None or b[1] is not None) and not selfref:
                         st.lin[(c[0], c[1])] = (a, b)       # remembered: a later bound on `me` is a bound on a - b
                     # me = a - b : a - me = b
                     ib = st.val_iv(b)
@@ -1391,6 +1511,13 @@ class Analyzer:
                         st.sym[(c[0], c[1] + ("0",))] = ("pending", inner)
                     elif inner[0] != "top":
                         st.sym[(c[0], c[1] + ("0",))] = inner
+                    if self.mag and op in ("AddO", "SubO") and inner[0] not in ("sum", "diff") and a[0] == "n" and b[0] == "n" \
+                            and (a[1] is not None or b[1] is not None):
+                        # the sum may wrap, so it is not kept as a number - but magnitude-wise it still is a +/- b
+                        from .absdom import under as _u, term_place as _tp
+                        d0 = (c[0], c[1])
+                        if not any(x[1] is not None and _u(_tp(x[1]), d0) for x in (a, b)):
+                            st.lin[(c[0], c[1] + ("0",))] = (a, b, "+" if op == "AddO" else "satsub", "any")
                 return None, None
             return self.binop(st, op, a, ta, b, tb, dt), dt
         if k == "un":
@@ -1716,8 +1843,183 @@ class Analyzer:
                 if st is None or st.bottom:
                     continue
                 self.transfer_block(bi, st.copy())
+            if self.mag:
+                try:
+                    self.loop_sinks(body, ins, edge)
+                except Exception:
+                    if os.environ.get("PANIC_DEBUG"):
+                        raise
             self.collect = False
         return self.res
+
+    def _lin_snapshot(self, st, src_pj, dst_pj):
+        """`P = move tmp` where tmp is remembered as a - b and a lives in P (`y -= n` through the checked-arithmetic
+        temporary): (P's place, remembered form with a replaced by its lower bound) so that the magnitude analysis can still
+        resolve P afterwards; None otherwise"""
+        from .absdom import under as _under, term_place as _tp
+        cs, cd = self.canon(st, src_pj), self.canon(st, dst_pj)
+        if cs is None or cd is None or not self.is_num(cd[2]):
+            return None
+        sv = st.sym.get((cs[0], cs[1]))
+        pl = (cs[0], cs[1])
+        if sv is not None and sv[0] == "n" and sv[1] is not None and sv[1][0] == "v" and sv[2] == 0:
+            pl = (sv[1][1], sv[1][2])
+        ab = st.lin.get(pl)
+        if ab is None or (len(ab) == 4 and ab[3] != "any"):
+            return None
+        a, b = ab[0], ab[1]
+        d = (cd[0], cd[1])
+        plus = len(ab) >= 3 and ab[2] == "+"
+        if plus and b[1] is not None and _under(_tp(b[1]), d) and not (a[1] is not None and _under(_tp(a[1]), d)):
+            a, b = b, a
+        if b[1] is not None and _under(_tp(b[1]), d):
+            return None
+        if a[1] is not None and _under(_tp(a[1]), d):
+            # the old value of P is replaced by the constant 0 when it is bounded on the side that matters
+            if plus:
+                return (d, (("n", None, 0), b, "+", "hi")) if self.mag_bounded(st, a) else None
+            return (d, (("n", None, 0), b, "satsub", "lo")) if self.mag_lo_bounded(st, a) else None
+        if len(ab) == 4:
+            return d, ab        # a may-wrap sum / difference of other places, moved into P
+        return None
+
+    # ------------------------------------------------------------------ C03: comparison-driven loops
+    def _linear_updates(self, body, loop):
+        """{json(place projection): place projection} of places updated inside the loop only by  P = P +/- const"""
+        import json as _json
+        tmp = {}          # local -> source place json of  _t = AddO/SubO(copy P, const)
+        lin, other = {}, set()
+        for bi in loop:
+            for s in body.blocks[bi]["stmts"]:
+                if s["k"] != "assign":
+                    continue
+                rv = s["rv"]
+                if rv["k"] == "bin" and rv["op"] in ("AddO", "SubO", "Add", "Sub") and not s["p"].get("p"):
+                    a, b = rv["a"], rv["b"]
+                    src = None
+                    if "const" in b and ("copy" in a or "move" in a):
+                        src = a.get("copy") or a.get("move")
+                    elif "const" in a and ("copy" in b or "move" in b) and rv["op"] in ("AddO", "Add"):
+                        src = b.get("copy") or b.get("move")
+                    if src is not None:
+                        tmp[s["p"]["l"]] = _json.dumps(src, sort_keys=True)
+        for bi in loop:
+            for s in body.blocks[bi]["stmts"]:
+                if s["k"] != "assign":
+                    continue
+                key = _json.dumps(s["p"], sort_keys=True)
+                rv = s["rv"]
+                src = None
+                if rv["k"] == "use":
+                    o = rv["a"]
+                    pj = o.get("move") or o.get("copy")
+                    if pj is not None and pj["l"] in tmp and (not pj.get("p") or (len(pj["p"]) == 1 and pj["p"][0] != "*" and pj["p"][0][0] == "f" and pj["p"][0][1] == 0)):
+                        src = tmp[pj["l"]]
+                if s["p"]["l"] in tmp and not s["p"].get("p"):
+                    continue        # the temporary itself
+                if src is not None and src == key:
+                    lin[key] = s["p"]
+                else:
+                    other.add(key)
+            t = body.blocks[bi]["term"]
+            if t["k"] == "call":
+                other.add(_json.dumps(t["dest"], sort_keys=True))
+        return {k: v for k, v in lin.items() if k not in other}
+
+    def loop_sinks(self, body, ins, edge):
+        heads = body.loop_heads()
+        if not heads:
+            return
+        NEG = {"Lt": "Ge", "Le": "Gt", "Gt": "Le", "Ge": "Lt"}
+        for h in sorted(heads):
+            loop = body.natural_loop(h)
+            hst = ins.get(h)
+            if hst is None or hst.bottom:
+                continue
+            ent = None
+            for p in body.pred[h]:
+                if p in loop:
+                    continue
+                e = edge.get((p, h))
+                if e is not None and not e.bottom:
+                    ent = e if ent is None else ent.join(e)
+            if ent is None:
+                continue
+            lin = None
+            for x in sorted(loop):
+                t = body.blocks[x]["term"]
+                if t["k"] != "switch":
+                    continue
+                inside = [s for s in body.succ[x] if s in loop]
+                outside = [s for s in body.succ[x] if s not in loop]
+                if not inside or not outside:
+                    continue
+                d = self.switch_conds.get(x)
+                if d is None or d[0] != "b":
+                    continue
+                c = d[1]
+                neg = False
+                while c[0] == "not":
+                    c = c[1]
+                    neg = not neg
+                if c[0] != "cmp" or c[1] not in NEG:
+                    continue
+                # truth of the discriminant on the edge that stays in the loop
+                tg = inside[0]
+                vals = [v for v, s2 in t["targets"] if s2 == tg]
+                listed = {v for v, _ in t["targets"]}
+                if vals and t["otherwise"] != tg and len(vals) == 1:
+                    truth = bool(vals[0])
+                elif t["otherwise"] == tg and not vals and listed in ({0}, {1}):
+                    truth = listed == {0}
+                else:
+                    continue
+                if neg:
+                    truth = not truth
+                op, A, B = c[1], c[2], c[3]
+                cont = op if truth else NEG[op]
+                low, high = (A, B) if cont in ("Lt", "Le") else (B, A)
+                if low[0] != "n" or high[0] != "n":
+                    continue
+                # one of the operands must be stepped by a constant inside the loop (a counting loop, not a halving one)
+                if lin is None:
+                    lin = self._linear_updates(body, loop)
+                moving = False
+                for pj in lin.values():
+                    cn = self.canon(hst, pj)
+                    if cn is None:
+                        continue
+                    tt = ("v", cn[0], cn[1])
+                    for w in (low, high):
+                        w2 = hst.norm(w)
+                        if w[1] == tt or (w2[0] == "n" and w2[1] == tt):
+                            moving = True
+                if not moving:
+                    continue
+                self.res.loop_sinks = getattr(self.res, "loop_sinks", 0) + 1
+                dd = None
+                if low[1] is not None and high[1] is not None:
+                    dd = ent.bound_diff(high[1], low[1])
+                    if dd is not None:
+                        dd += high[2] - low[2]
+                else:
+                    ih, il = ent.val_iv(high), ent.val_iv(low)
+                    if ih[1] is not None and il[0] is not None:
+                        dd = ih[1] - il[0]
+                try:
+                    txt = _short(show(self.eb.operand(t["discr"])))
+                except Exception:
+                    txt = "cmp"
+                desc = "loop(%s%s)" % ("" if truth else "!", txt)
+                what = "the loop runs while %s: its trip count (the distance between the two sides at loop entry) is not bounded by a constant, a length or a screen dimension" % txt
+                self.cur_dirty = ent.dirty
+                self.cur_state = ent
+                if dd is not None and dd <= self.MAG_LIMIT:
+                    self.oblige(x, "MAG", True, "B", desc, t, what, None)
+                    self.res.obls[-1].raw = ("mag", high, False)
+                    continue
+                self.mag_sink(ent, x, t, high, what, desc=desc + " #high", soft=True)
+                self.mag_sink(ent, x, t, low, what, desc=desc + " #low", lo=True, soft=True)
 
     def state_before_term(self, bi):
         """abstract state just before the terminator of block `bi` (after analyze())"""
